@@ -275,6 +275,14 @@ pub fn c18(case: &Case, q: usize, crash: &Option<CrashPoint>) -> C18Result {
         if b >= full.steps.len() || full.steps[b].op.queue() == Some(q) || full.steps[b].op.queue().is_none() {
             return res;
         }
+        // sound only if everything about q had reached the OS before the crash: every call addressed to q
+        // after the last persist point (explicit persist, create/delete of any queue, clean restart)
+        // must have run under a flush-per-call policy
+        let last_persist = (0..b).rev().find(|&i| crate::crash::obligation(&full.steps[i]).is_some() || matches!(full.steps[i].op, Op::Restart { .. }));
+        let unflushed_q_op = (last_persist.map(|p| p + 1).unwrap_or(0)..b).any(|i| full.steps[i].op.queue() == Some(q) && !full.steps[i].policy.is_always() && !full.steps[i].outcome.is_err());
+        if unflushed_q_op {
+            return res;
+        }
         let Some(idx) = global_index(&full, cp) else { return res };
         let image = os_image_at(&full, idx, cp.byte);
         let policy = full.steps[b].policy;
